@@ -3,6 +3,9 @@ import ZCV.Lemmas.ElabNoIntFlat
 import ZCV.Lemmas.NoInternalLower
 import ZCV.Lemmas.ElabInv
 import ZCV.Lemmas.ElabRulesDoc
+import ZCV.Lemmas.ElabCompleteDoc
+import ZCV.Lemmas.ElabCompleteConvDoc
+import ZCV.Lemmas.ElabCompleteFacts
 /-!
 # C10 — schema documents are accepted exactly when they obey the schema language rules
 
@@ -14,6 +17,11 @@ that the handler does not fail for that reason otherwise.
 Handlers that run other checks *before* the rule (e.g. `start_sectiontype` resolves the `prefix` attribute and the
 datatype attributes before it registers the name) get two statements: `…_refused` (unconditional: the handler does
 not succeed) and the exact `SchemaError` once the earlier steps of the same handler are known to pass.
+
+The last sentence of the property — "every document that satisfies the rules is accepted" — and its converse against the
+same judgement are at the end of the file: `C10_rules_accepted`, `C10_accepted_iff_rules` (one document) and
+`C10_rules_accepted_imports`, `C10_accepted_iff_rules_imports` (with `<import package=…>`), for the rule-by-rule
+judgement `DocRules` / `DocRulesN` of `ZCV/Spec/SchemaRules.lean`.
 
 Notation used below (defined in `ZCV/Lemmas/ElabRules.lean`):
 `es.typeNames` — the keys of the type table; `DupKey ch key` / `DupAttr ch a` — `key` (non-empty) is already the key
@@ -912,5 +920,327 @@ theorem C10_errors_are_schema_errors (env : Elab.Env) (fuel : Nat) (t : Elab.Nod
 theorem C10_no_internal_single_document (env : Elab.Env) (fuel : Nat) (t : Elab.Node) (e : String)
     (he : Elab.EnvNI env) (hflat : Elab.flatDoc t = true) : Elab.elabSchema env fuel t ≠ .error (.internal e) :=
   Elab.elab_no_internal_flat env fuel t e he hflat
+
+/-! ## completeness: every document that satisfies the rules is accepted
+
+The rules are the judgement `SchemaRules.DocRules env kind root` of `ZCV/Spec/SchemaRules.lean`: a Boolean checker
+written rule by rule from the statement of the property (the list of the rules, those of the statement and the
+"further rules" of the code, is in the header of that file).  It is decidable, so closed instances are settled by
+`decide`. -/
+
+/-- **Every document that satisfies the rules is accepted.**  A schema document — one document: no `<import>` child, no
+`extends` on `<schema>` (`standalone`) — that satisfies the static rules of the schema language (`DocRules`) is loaded
+successfully by the loader model, for every environment (datatype registry, key types) and every fuel (a standalone
+document never reads another one, so the recursion bound plays no role).  Nothing is restricted inside the document:
+`prefix`, `keytype`/`valuetype`/`datatype`, `handler`, abstract / concrete / derived / implementing section types,
+keys and multikeys with `default=` / `<default>` / keyed defaults, sections and multisections, `<description>`,
+`<example>`, `<metadefault>`. -/
+theorem C10_rules_accepted (env : Elab.Env) (fuel : Nat) (root : Elab.Node)
+    (hst : SchemaRules.standalone root = true) (hr : SchemaRules.DocRules env .schema root) :
+    ∃ S, Elab.elabSchema env fuel root = .ok S :=
+  SchemaRules.rules_accepted env fuel root hst hr
+
+/-- …and the schema object obtained satisfies the structural invariant the configuration-loading theorems assume -/
+theorem C10_rules_accepted_schemaOK (env : Elab.Env) (fuel : Nat) (root : Elab.Node)
+    (hkey : ∀ (kt s r : Str), s ≠ [] → env.conv.key kt s = .ok r → r ≠ [])
+    (hst : SchemaRules.standalone root = true) (hr : SchemaRules.DocRules env .schema root) :
+    ∃ S, Elab.elabSchema env fuel root = .ok S ∧ Conf.schemaOK S = true := by
+  obtain ⟨S, hS⟩ := C10_rules_accepted env fuel root hst hr
+  exact ⟨S, hS, C10_elab_schemaOK env fuel root S hkey hS⟩
+
+/-- **An accepted document satisfies the rules** — all of them at once, against the same judgement: a standalone
+schema document that the loader model accepts satisfies `DocRules` (so the per-rule theorems above are not a partial
+list: nothing the judgement demands is left unchecked by the loader, and the judgement demands nothing more than the
+loader does). -/
+theorem C10_accepted_rules (env : Elab.Env) (fuel : Nat) (root : Elab.Node) (S : Cfg.Schema)
+    (hst : SchemaRules.standalone root = true) (h : Elab.elabSchema env fuel root = .ok S) :
+    SchemaRules.DocRules env .schema root :=
+  SchemaRules.accepted_rules env fuel root S hst h
+
+/-- **Schema documents are accepted exactly when they obey the schema language rules** (one document: an element
+without `extends`, without `<import>` child): acceptance by the loader model and the rule-by-rule judgement coincide,
+for every environment and every fuel.  In particular acceptance of a standalone document is decidable by the rule
+checker `SchemaRules.docRules`, and does not depend on the fuel. -/
+theorem C10_accepted_iff_rules (env : Elab.Env) (fuel : Nat) (root : Elab.Node)
+    (hst : SchemaRules.standalone root = true) :
+    (∃ S, Elab.elabSchema env fuel root = .ok S) ↔ SchemaRules.DocRules env .schema root :=
+  ⟨fun ⟨S, h⟩ => C10_accepted_rules env fuel root S hst h, C10_rules_accepted env fuel root hst⟩
+
+/-- a document that breaks a rule is refused (contrapositive of `C10_accepted_rules`) -/
+theorem C10_rule_violation_refused (env : Elab.Env) (fuel : Nat) (root : Elab.Node)
+    (hst : SchemaRules.standalone root = true) (hr : ¬ SchemaRules.DocRules env .schema root) :
+    ∃ e, Elab.elabSchema env fuel root = .error e := by
+  cases h : Elab.elabSchema env fuel root with
+  | error e => exact ⟨e, rfl⟩
+  | ok S => exact absurd (C10_accepted_rules env fuel root S hst h) hr
+
+/-! ### with `<import package=…>`: components, nested
+
+`DocRulesN env n .schema root`: the document and the components it imports — looked up in `env.comps`, each merged once,
+nested at most `n` deep — obey the rules (`SchemaRules.level`; `n = 0` is `DocRules`).  Only `extends` on `<schema>`
+remains outside (`noExtends`). -/
+
+/-- **Every document that satisfies the rules is accepted — imports included.**  A schema document without `extends`
+on `<schema>` that satisfies the rules together with the components it imports (nested at most `n` deep) is loaded
+successfully whenever the recursion bound allows `n` levels of nested documents. -/
+theorem C10_rules_accepted_imports (env : Elab.Env) (n fuel : Nat) (root : Elab.Node)
+    (hx : SchemaRules.noExtends root = true) (hr : SchemaRules.DocRulesN env n .schema root) (hfuel : n ≤ fuel) :
+    ∃ S, Elab.elabSchema env fuel root = .ok S :=
+  SchemaRules.rules_accepted_imports env n fuel root hx hr hfuel
+
+/-- **An accepted document satisfies the rules — imports included**: a schema document without `extends` that the
+loader accepts with recursion bound `fuel` satisfies the rules, and so does every component it read (they nest at most
+`fuel` deep). -/
+theorem C10_accepted_rules_imports (env : Elab.Env) (fuel : Nat) (root : Elab.Node) (S : Cfg.Schema)
+    (hx : SchemaRules.noExtends root = true) (h : Elab.elabSchema env fuel root = .ok S) :
+    SchemaRules.DocRulesN env fuel .schema root :=
+  SchemaRules.accepted_rules_imports env fuel root S hx h
+
+/-- **Schema documents are accepted exactly when they obey the schema language rules — imports included.**  For a
+document without `extends` on `<schema>`: the loader with recursion bound `fuel` accepts it iff the document and the
+components it imports, nested at most `fuel` deep, satisfy the rules. -/
+theorem C10_accepted_iff_rules_imports (env : Elab.Env) (fuel : Nat) (root : Elab.Node)
+    (hx : SchemaRules.noExtends root = true) :
+    (∃ S, Elab.elabSchema env fuel root = .ok S) ↔ SchemaRules.DocRulesN env fuel .schema root :=
+  ⟨fun ⟨S, h⟩ => C10_accepted_rules_imports env fuel root S hx h,
+   fun hr => C10_rules_accepted_imports env fuel fuel root hx hr (Nat.le_refl _)⟩
+
+/-- what the judgement means, order-free: in a document that satisfies the rules (with its imports), the names of all
+types of the signature it ends with — `<abstracttype>` and `<sectiontype>` declarations of the document and of the
+components it imports, after basic-key normalisation — are pairwise distinct; every concrete type of that signature
+(members of the base first, then the type's own) has pairwise distinct attribute names and pairwise distinct non-empty
+keys — inherited ones included — and so has the top-level container -/
+theorem C10_rules_unique_names (env : Elab.Env) (n : Nat) (t : Str) (a : Attrs) (c : List Elab.Node)
+    (h : SchemaRules.DocRulesN env n .schema (.elem t a c)) :
+    ((SchemaRules.topAfter env (SchemaRules.level env n) (SchemaRules.prefixOf none a) [] [] c).1.names).Nodup ∧
+    (∀ nm kt ms, (nm, SchemaRules.TySig.concrete kt ms) ∈
+          (SchemaRules.topAfter env (SchemaRules.level env n) (SchemaRules.prefixOf none a) [] [] c).1 →
+        (ms.map (·.attr)).Nodup ∧ (SchemaRules.memberKeys ms).Nodup) ∧
+    ((SchemaRules.membersOf env (SchemaRules.keytypeOf env (SchemaRules.prefixOf none a) a none) c).map (·.attr)).Nodup ∧
+    (SchemaRules.memberKeys
+      (SchemaRules.membersOf env (SchemaRules.keytypeOf env (SchemaRules.prefixOf none a) a none) c)).Nodup :=
+  ⟨(SchemaRules.docRules_signature_wf h).1, fun nm kt ms hm => (SchemaRules.docRules_signature_wf h).2 nm kt ms hm,
+   SchemaRules.docRules_top_wf h⟩
+
+namespace RulesEx
+open SchemaRules
+
+/-- an environment for closed instances: the key type `basic-key` as documented (structural definition), every other
+key type the identity; one dotted datatype name, `my.dt`, is known -/
+def env : Elab.Env :=
+  { conv := { key := fun kt s => if kt == "basic-key".toList then DTSpec.basicKey s else .ok s,
+              val := fun _ s => .ok (.str s), sect := fun _ v => .ok v },
+    dotted := fun n => if n == "my.dt".toList then .found n else .valueError,
+    comps := fun _ _ => .notImportable, bases := fun _ => none }
+
+def E (t : String) (a : List (String × String)) (c : List Node) : Node :=
+  .elem t.toList (a.map fun p => (p.1.toList, p.2.toList)) c
+def T (s : String) : Node := .text s.toList
+/-- `<schema>` with children `c` -/
+def S (c : List Node) : Node := E "schema" [] c
+
+/-- a document with a prefix and a dotted datatype, an abstract type, a concrete type implementing it (own key type,
+a key with a `default` attribute and notes, a multikey with `<default>`s, a single-valued `+` key with keyed
+defaults, a required multikey), a type derived from it (a key with datatype and handler, a section of its own type,
+a multisection), and a section, a multi-valued `+` key whose default keys coincide after normalisation, and a key at
+top level -/
+def good : Node :=
+  E "schema" [("prefix", "my"), ("datatype", ".dt")] [
+    T "\n  ",
+    E "description" [] [T "a schema"],
+    E "abstracttype" [("name", "Abs")] [E "description" [] [T "x"]],
+    E "sectiontype" [("name", "Base"), ("implements", "abs"), ("keytype", "string")] [
+      E "key" [("name", "Alpha"), ("default", "1")]
+        [E "description" [] [T "d"], E "metadefault" [] [], E "metadefault" [] []],
+      E "multikey" [("name", "beta"), ("attribute", "betas")] [E "default" [] [T "1"], E "default" [] [T "2"]],
+      E "key" [("name", "+"), ("attribute", "rest")]
+        [E "default" [("key", "A")] [T "1"], E "default" [("key", "a")] [T "2"]],
+      E "multikey" [("name", "gamma"), ("required", "yes")] []
+    ],
+    E "sectiontype" [("name", "derived"), ("extends", "BASE")] [
+      E "key" [("name", "delta"), ("datatype", "integer"), ("handler", "h")] [],
+      E "section" [("type", "derived"), ("name", "inner"), ("attribute", "inner")] [],
+      E "multisection" [("type", "abs"), ("name", "+"), ("attribute", "many")] [E "example" [] [T "e"]]
+    ],
+    E "section" [("type", "abs"), ("attribute", "one")] [],
+    E "multikey" [("name", "+"), ("attribute", "more")]
+      [E "default" [("key", "x")] [T "1"], E "default" [("key", "X")] [T "2"]],
+    E "key" [("name", "top-key")] []
+  ]
+
+/-- non-vacuity of `C10_rules_accepted`: the document above is standalone and satisfies the rules… -/
+example : standalone good = true ∧ DocRules env .schema good := by decide +kernel
+/-- …hence is accepted -/
+example (fuel : Nat) : ∃ S, Elab.elabSchema env fuel good = .ok S :=
+  C10_rules_accepted env fuel good (by decide +kernel) (by decide +kernel)
+
+/-- a component read on its own: type declarations and descriptions only -/
+example : DocRules env .component
+    (E "component" [("prefix", "my")] [E "description" [] [T "a"], E "description" [] [T "b"],
+      E "abstracttype" [("name", "a")] [], E "sectiontype" [("name", "t"), ("implements", "a")] []]) := by
+  decide +kernel
+
+/-! `DocRules` is false on a document that breaks a rule — one (or more) per rule family -/
+
+-- 1. unique type names, after normalisation
+example : ¬ DocRules env .schema (S [E "sectiontype" [("name", "T")] [], E "abstracttype" [("name", "t")] []]) := by
+  decide +kernel
+/-- …and such a document is refused by the loader, e.g. this one -/
+example (fuel : Nat) : ∃ e, Elab.elabSchema env fuel
+    (S [E "sectiontype" [("name", "T")] [], E "abstracttype" [("name", "t")] []]) = .error e :=
+  C10_rule_violation_refused env fuel _ (by decide +kernel) (by decide +kernel)
+-- 2. unique key names after the key type (`a` / `A` under basic-key), unique attribute names, inherited ones included
+example : ¬ DocRules env .schema (S [E "key" [("name", "a")] [], E "key" [("name", "A")] []]) := by decide +kernel
+example : ¬ DocRules env .schema (S [E "key" [("name", "a")] [], E "key" [("name", "b"), ("attribute", "a")] []]) := by
+  decide +kernel
+example : ¬ DocRules env .schema (S [E "sectiontype" [("name", "b")] [E "key" [("name", "k")] []],
+    E "sectiontype" [("name", "d"), ("extends", "b")] [E "multikey" [("name", "K")] []]]) := by decide +kernel
+example : ¬ DocRules env .schema (S [E "sectiontype" [("name", "b")] [E "key" [("name", "k")] []],
+    E "sectiontype" [("name", "d"), ("extends", "b")] [E "key" [("name", "other"), ("attribute", "k")] []]]) := by
+  decide +kernel
+-- 3. types defined before use
+example : ¬ DocRules env .schema (S [E "section" [("type", "t"), ("name", "s")] [], E "sectiontype" [("name", "t")] []]) := by
+  decide +kernel
+example : ¬ DocRules env .schema (S [E "sectiontype" [("name", "d"), ("extends", "b")] [], E "sectiontype" [("name", "b")] []]) := by
+  decide +kernel
+example : ¬ DocRules env .schema (S [E "sectiontype" [("name", "d"), ("implements", "a")] []]) := by decide +kernel
+-- 4. `extends` names a concrete type, `implements` an abstract one
+example : ¬ DocRules env .schema (S [E "abstracttype" [("name", "a")] [], E "sectiontype" [("name", "d"), ("extends", "a")] []]) := by
+  decide +kernel
+example : ¬ DocRules env .schema (S [E "sectiontype" [("name", "b")] [], E "sectiontype" [("name", "d"), ("implements", "b")] []]) := by
+  decide +kernel
+-- 5. wildcard names carry an attribute; `*` is not a key name
+example : ¬ DocRules env .schema (S [E "key" [("name", "+")] []]) := by decide +kernel
+example : ¬ DocRules env .schema (S [E "sectiontype" [("name", "t")] [], E "section" [("type", "t")] []]) := by decide +kernel
+example : ¬ DocRules env .schema (S [E "key" [("name", "*"), ("attribute", "a")] []]) := by decide +kernel
+-- 6. multisections are named `*` or `+`
+example : ¬ DocRules env .schema
+    (S [E "sectiontype" [("name", "t")] [], E "multisection" [("type", "t"), ("name", "s"), ("attribute", "a")] []]) := by
+  decide +kernel
+-- 7. no default on a required key
+example : ¬ DocRules env .schema (S [E "key" [("name", "k"), ("required", "yes"), ("default", "1")] []]) := by decide +kernel
+example : ¬ DocRules env .schema (S [E "multikey" [("name", "k"), ("required", "yes")] [E "default" [] [T "1"]]]) := by
+  decide +kernel
+-- 8. defaults keyed exactly for `+`; no collision after normalisation, in the type itself and in a derived type
+example : ¬ DocRules env .schema (S [E "multikey" [("name", "k")] [E "default" [("key", "x")] [T "1"]]]) := by decide +kernel
+example : ¬ DocRules env .schema (S [E "multikey" [("name", "+"), ("attribute", "a")] [E "default" [] [T "1"]]]) := by
+  decide +kernel
+example : ¬ DocRules env .schema (S [E "key" [("name", "+"), ("attribute", "a")]
+    [E "default" [("key", "X")] [T "1"], E "default" [("key", "x")] [T "2"]]]) := by decide +kernel
+example : ¬ DocRules env .schema (S [E "key" [("name", "+"), ("attribute", "a")] [E "default" [("key", "not a key")] [T "1"]]]) := by
+  decide +kernel
+example : ¬ DocRules env .schema (S [
+    E "sectiontype" [("name", "b"), ("keytype", "string")] [E "key" [("name", "+"), ("attribute", "a")]
+      [E "default" [("key", "X")] [T "1"], E "default" [("key", "x")] [T "2"]]],
+    E "sectiontype" [("name", "d"), ("extends", "b"), ("keytype", "basic-key")] []]) := by decide +kernel
+-- …the same base is fine on its own, and a derived type that keeps its key type too
+example : DocRules env .schema (S [
+    E "sectiontype" [("name", "b"), ("keytype", "string")] [E "key" [("name", "+"), ("attribute", "a")]
+      [E "default" [("key", "X")] [T "1"], E "default" [("key", "x")] [T "2"]]],
+    E "sectiontype" [("name", "d"), ("extends", "b")] []]) := by decide +kernel
+-- 9. `required`
+example : ¬ DocRules env .schema (S [E "key" [("name", "k"), ("required", "maybe")] []]) := by decide +kernel
+-- 10. nesting, stray text, document element
+example : ¬ DocRules env .schema (S [E "key" [("name", "k")] [E "key" [("name", "l")] []]]) := by decide +kernel
+example : ¬ DocRules env .schema (S [E "sectiontype" [("name", "t")] [E "abstracttype" [("name", "a")] []]]) := by
+  decide +kernel
+example : ¬ DocRules env .schema (S [E "default" [] [T "1"]]) := by decide +kernel
+example : ¬ DocRules env .schema (S [T "stray"]) := by decide +kernel
+example : ¬ DocRules env .schema (S [E "key" [("name", "k")] [E "description" [] [E "b" [] []]]]) := by decide +kernel
+example : ¬ DocRules env .schema (E "component" [] []) := by decide +kernel
+example : ¬ DocRules env .schema (S [E "frobnicate" [] []]) := by decide +kernel
+-- 11. well-formed names, attributes, handlers, datatype names
+example : ¬ DocRules env .schema (S [E "sectiontype" [("name", "1t")] []]) := by decide +kernel
+example : ¬ DocRules env .schema (S [E "key" [("name", "k"), ("attribute", "not-an-identifier")] []]) := by decide +kernel
+example : ¬ DocRules env .schema (S [E "key" [("name", "k"), ("attribute", "getSectionX")] []]) := by decide +kernel
+example : ¬ DocRules env .schema (S [E "key" [("name", "not a key")] []]) := by decide +kernel
+example : ¬ DocRules env .schema (S [E "key" [("name", "k"), ("datatype", "no-such-type")] []]) := by decide +kernel
+example : ¬ DocRules env .schema (S [E "key" [("name", "k"), ("datatype", "not.known")] []]) := by decide +kernel
+example : ¬ DocRules env .schema (E "schema" [("keytype", "nope")] []) := by decide +kernel
+example : ¬ DocRules env .schema (S [E "key" [("name", "k"), ("handler", "1h")] []]) := by decide +kernel
+example : ¬ DocRules env .schema (S [E "key" [] []]) := by decide +kernel
+-- further rules F1–F5
+example : ¬ DocRules env .schema (E "schema" [("prefix", ".rel")] []) := by decide +kernel
+example : ¬ DocRules env .schema (S [E "key" [("name", "k")] [E "description" [] [], E "description" [] []]]) := by
+  decide +kernel
+example : ¬ DocRules env .schema (S [E "example" [] [], E "example" [] []]) := by decide +kernel
+example : ¬ DocRules env .schema (S [E "key" [("name", "a.b")] []]) := by decide +kernel
+example : DocRules env .schema (S [E "key" [("name", "a.b"), ("attribute", "ab")] []]) := by decide +kernel
+example : ¬ DocRules env .schema (S [E "key" [("name", "k")] [E "default" [] [T "1"]]]) := by decide +kernel
+example : ¬ DocRules env .schema (S [E "multikey" [("name", "k"), ("default", "1")] []]) := by decide +kernel
+example : ¬ DocRules env .schema (S [E "key" [("name", "+"), ("attribute", "a"), ("default", "1")] []]) := by decide +kernel
+-- not one document
+example : ¬ DocRules env .schema (S [E "import" [("package", "p")] []]) := by decide +kernel
+example : standalone (E "schema" [("extends", "base.xml")] []) = false := by decide +kernel
+
+/-! ### documents with imports -/
+
+/-- the component `pkg`: a prefix, two descriptions (allowed in a component), an abstract and a concrete type, and an
+import of `pkg.sub` by a name relative to the prefix -/
+def compPkg : Node :=
+  E "component" [("prefix", "pkg")] [
+    E "description" [] [T "one"], E "description" [] [T "two"],
+    E "abstracttype" [("name", "service")] [],
+    E "import" [("package", ".sub")] [T " "],
+    E "sectiontype" [("name", "server"), ("implements", "service"), ("extends", "sub-base")]
+      [E "key" [("name", "port"), ("datatype", "port-number")] [E "description" [] [], E "description" [] []]]
+  ]
+/-- the component `pkg.sub`, which imports `pkg` back (a no-op: `pkg` is being merged already) -/
+def compSub : Node :=
+  E "component" [] [
+    E "import" [("package", "pkg")] [],
+    E "sectiontype" [("name", "sub-base")] [E "key" [("name", "host")] []]
+  ]
+/-- a component that breaks a rule (two keys with one name) -/
+def compBad : Node :=
+  E "component" [] [E "sectiontype" [("name", "t")] [E "key" [("name", "k")] [], E "key" [("name", "K")] []]]
+
+/-- `env` with three packages; `nofile` is a package without `component.xml` -/
+def envI : Elab.Env :=
+  { env with comps := fun p f =>
+      if f == "component.xml".toList then
+        if p == "pkg".toList then .doc compPkg
+        else if p == "pkg.sub".toList then .doc compSub
+        else if p == "bad".toList then .doc compBad
+        else if p == "nofile".toList then .noFile
+        else .notImportable
+      else if p == "pkg".toList || p == "pkg.sub".toList || p == "bad".toList || p == "nofile".toList then .noFile
+      else .notImportable }
+
+/-- a schema that imports `pkg` (twice: the second import is a no-op) and uses its types -/
+def withImports : Node :=
+  S [E "import" [("package", "pkg")] [], E "import" [("package", "pkg"), ("file", "component.xml")] [],
+     E "sectiontype" [("name", "mine"), ("extends", "server")] [E "key" [("name", "extra")] []],
+     E "multisection" [("type", "service"), ("attribute", "servers")] [],
+     E "section" [("type", "sub-base"), ("name", "base"), ("attribute", "base")] []]
+
+/-- non-vacuity of `C10_rules_accepted_imports`: components nested two deep -/
+example : noExtends withImports = true ∧ DocRulesN envI 2 .schema withImports := by decide +kernel
+example (fuel : Nat) (hf : 2 ≤ fuel) : ∃ S, Elab.elabSchema envI fuel withImports = .ok S :=
+  C10_rules_accepted_imports envI 2 fuel withImports (by decide +kernel) (by decide +kernel) hf
+/-- the signature it ends with: the types of the components, in the order in which they were merged, then its own -/
+example : (match withImports with
+    | .elem _ a c => (topAfter envI (level envI 2) (prefixOf none a) [] [] c).1.names
+    | .text _ => []) =
+    ["service".toList, "sub-base".toList, "server".toList, "mine".toList] := by decide +kernel
+-- one level of nesting is not enough for this document; a document is not standalone when it imports
+example : ¬ DocRulesN envI 1 .schema withImports := by decide +kernel
+example : standalone withImports = false := by decide +kernel
+-- a component that breaks a rule; a package that does not exist; a package without component file; a clash between a
+-- type of the schema and a type of a component; `src`; something inside `<import>`
+example : ¬ DocRulesN envI 3 .schema (S [E "import" [("package", "bad")] []]) := by decide +kernel
+example : ¬ DocRulesN envI 3 .schema (S [E "import" [("package", "nowhere")] []]) := by decide +kernel
+example : ¬ DocRulesN envI 3 .schema (S [E "import" [("package", "nofile")] []]) := by decide +kernel
+example : ¬ DocRulesN envI 3 .schema (S [E "abstracttype" [("name", "Server")] [], E "import" [("package", "pkg")] []]) := by
+  decide +kernel
+example : ¬ DocRulesN envI 3 .schema (S [E "import" [("src", "http://x/y.xml")] []]) := by decide +kernel
+example : ¬ DocRulesN envI 3 .schema (S [E "import" [("package", "pkg")] [E "description" [] []]]) := by decide +kernel
+example : ¬ DocRulesN envI 3 .schema (S [E "import" [("package", "pkg"), ("file", "a/b.xml")] []]) := by decide +kernel
+example : ¬ DocRulesN envI 3 .schema (S [E "import" [("package", "pkg..sub")] []]) := by decide +kernel
+-- types of a component are defined only after the import
+example : ¬ DocRulesN envI 3 .schema
+    (S [E "section" [("type", "server"), ("attribute", "s")] [], E "import" [("package", "pkg")] []]) := by decide +kernel
+
+end RulesEx
 
 end ZCV.Props.C10
